@@ -176,6 +176,20 @@ impl Gen7 {
         let orders = if self.rng.chance(4, 5) { self.order(vec![k], Some(tie.0)) } else { vec![] };
         let b = |g: &mut Gen7, start: bool| match g.rng.below(4) { 0 => if start { Bound::UP } else { Bound::UF }, 1 => Bound::CR, 2 => if start { Bound::P(1 + g.rng.below(2) as u32) } else { Bound::F(1 + g.rng.below(2) as u32) }, _ => if start { Bound::P(0) } else { Bound::F(0) } };
         let frame = if !orders.is_empty() && self.rng.chance(1, 2) { Some(FrameC { rows: true, start: b(self, true), stop: if self.rng.chance(2, 3) { Some(b(self, false)) } else { None } }) } else { None };
+        // a framed window is where the position of NULL keys decides the result: half of them order by a column that holds NULLs,
+        // with the NULLS option that is NOT the engines' default for the direction (MySQL has to emulate it)
+        let mut orders = orders; let mut partition: Vec<Ex> = partition; let mut frame = frame;
+        if frame.is_some() && self.rng.chance(1, 2) {
+            // .. over the whole relation, as a running aggregate (within a partition by the key itself, or in a one-row frame, the order of the NULLs cannot show)
+            partition.clear();
+            frame = Some(FrameC { rows: true, start: Bound::UP, stop: if self.rng.chance(1, 2) { Some(Bound::CR) } else { None } });
+            let nullable = ["size", "width", "glyph_id", "font_id", "aspect"];
+            let key = (0..8).map(|_| self.pick_col(rels, None).0).find(|e| matches!(e, Ex::Col(ColRef::TCol(_, c)) | Ex::Col(ColRef::Col(c)) if nullable.contains(&c.as_str())));
+            if let (Some(key), Some(first)) = (key, orders.first_mut()) {
+                let desc = self.rng.chance(1, 2);
+                *first = OrderItem { e: key, kind: if desc { OrderKind::Desc } else { OrderKind::Asc }, nulls_first: Some(desc) };
+            }
+        }
         Window { partition, orders, frame }
     }
     /// a FROM item and the relation it brings into scope
@@ -255,6 +269,9 @@ impl Gen7 {
             }
             // a byte-string value among the items: its literal (x'..' / '\x..') must denote the bytes that are bound
             if self.rng.chance(1, 8) { let a = self.alias("o"); s.selects.push(SelItem { e: Ex::Val(self.value('y')), win: WinSel::None, alias: Some(a.clone()) }); out.push((a, 'y')); }
+            // .. and a JSON document whose text needs the string escaping of every backend (quotes, backslashes, control characters)
+            if self.rng.chance(1, 8) { let a = self.alias("o"); let doc = match self.rng.below(4) { 0 => serde_json::json!({"title": "the \"A\" glyph", "n": 1}), 1 => serde_json::json!({"path": "c:\\fonts\\a", "it": "it's"}), 2 => serde_json::json!(["two\nlines", "tab\there", null]), _ => serde_json::json!({"k": [1, 2.5, "x"], "q": "?"}) };
+                s.selects.push(SelItem { e: Ex::Val(val(Value::Json(Some(Box::new(doc))))), win: WinSel::None, alias: Some(a.clone()) }); out.push((a, 'j')); }
             if self.named_window && s.window.is_none() && s.selects.iter().any(|x| matches!(x.win, WinSel::Name(_))) { s.window = Some(("w".into(), self.window(&rels))); }
             if self.rng.chance(1, 8) { s.distinct = Some(Distinct::Distinct); }
         }
